@@ -67,9 +67,21 @@ theorem order_consistent_valued_partial (a b : VLit) (h : eqb a.term b.term = tr
     | none => simp [hv, hb]
     | some u =>
       have hu : a.val = some u := hv.trans hb
-      simp only [hv, hb, PyVal.gt_self, Bool.false_eq_true, if_false]
+      have hself : PyVal.eq u u = true := by
+        have := hn u hu
+        simp only [PyVal.eq]
+        cases hk : u.key? with
+        | none => exact absurd hk this
+        | some k => simp
+      simp only [hv, hb]
       cases usesCaster u u with
-      | false => simp
+      | false =>
+        simp only [Bool.false_eq_true, if_false, hself, if_true]
+        cases hg : PyVal.gt u u with
+        | none => rfl
+        | some r => cases r with
+          | false => rfl
+          | true => exact absurd hg (PyVal.gt_self u)
       | true =>
         simp only [if_true, castGt]
         cases u.key? with
@@ -79,7 +91,13 @@ theorem order_consistent_valued_partial (a b : VLit) (h : eqb a.term b.term = tr
     simp only [litGtV, hgen]
     cases hb : b.val with
     | none => simp [hv, hb]
-    | some u => simp [hv, hb, PyVal.gt_self]
+    | some u =>
+      simp only [hv, hb]
+      cases hg : PyVal.gt u u with
+      | none => simp
+      | some r => cases r with
+        | false => simp
+        | true => exact absurd hg (PyVal.gt_self u)
   have heq : litEqV a b = some true := by
     have hself : ∀ u, b.val = some u → PyVal.eq u u = true := by
       intro u hu
@@ -209,6 +227,46 @@ theorem lit_class_order : Statement_lit_class_order := by
       · exact h
       · rw [h1] at h; cases h
 
+/-! ## durations: values without an order -/
+
+/-- two literals of one datatype `d` (not numeric, not xsd:string) and language whose values are durations, at least one an
+    `rdflib.xsd_datetime.Duration` (Python defines no order for it): value-equal ones are not ordered at all, the others
+    order as their lexical forms -/
+def Statement_lit_duration_order : Prop :=
+  ∀ (a b : VLit) (d : Str) (u v : PyVal), a.dt = some d → b.dt = some d → d ≠ Tables.xsdString →
+    Tables.numericTypes.contains d = false → langKey a.lang = langKey b.lang →
+    a.val = some u → b.val = some v → u.cls = 6 → v.cls = 6 → (u.noOrder || v.noOrder) = true →
+    litEqV a b = some (PyVal.eq u v) ∧
+    pyGt a b = (!PyVal.eq u v && strLt b.lex a.lex) ∧
+    pyLt a b = (!PyVal.eq u v && !strLt b.lex a.lex)
+
+theorem lit_duration_order : Statement_lit_duration_order := by
+  intro a b d u v hda hdb hds hdn hl hva hvb hcu hcv hno
+  have hna : isNumericDt a.dt = false := by rw [hda]; simpa [isNumericDt] using hdn
+  have hf : fastOK a b = false := by simp [fastOK, hna]
+  have hca : a.cdt = d := by simp [VLit.cdt, hda]
+  have hcb : b.cdt = d := by simp [VLit.cdt, hdb]
+  have huc : usesCaster u v = false := by simp [usesCaster, hcu]
+  have hgt0 : PyVal.gt u v = none := by simp [PyVal.gt, hcu, hcv, hno]
+  have he : litEqV a b = some (PyVal.eq u v) := by
+    simp [litEqV, hf, hl, hca, hcb, hds, hva, hvb]
+  have hg : litGtV a b = (!PyVal.eq u v && strLt b.lex a.lex) := by
+    simp only [litGtV, hf, Bool.false_eq_true, if_false, gtGeneral, hca, hcb, hl, ne_eq, not_true_eq_false, hva, hvb, huc,
+      hgt0, gtTail, hda, hdb]
+    cases PyVal.eq u v <;> by_cases e : a.lex = b.lex <;> simp [e, strLt_irrefl]
+  refine ⟨he, hg, ?_⟩
+  simp only [pyLt, litLtV, hg, he]
+  cases PyVal.eq u v <;> cases strLt b.lex a.lex <;> simp
+
+/-- so `<` is not transitive inside xsd:yearMonthDuration: `P12M < P13M < P1Y` as strings, `P12M` and `P1Y` value-equal -/
+def durLit (x : String) (m : Int) : VLit :=
+  ⟨x.toList, some "http://www.w3.org/2001/XMLSchema#yearMonthDuration".toList, none, some (.dur m 0 true), false⟩
+
+theorem lit_duration_not_transitive :
+    pyLt (durLit "P12M" 12) (durLit "P13M" 13) = true ∧ pyLt (durLit "P13M" 13) (durLit "P1Y" 12) = true ∧
+    pyLt (durLit "P12M" 12) (durLit "P1Y" 12) = false ∧ pyGt (durLit "P1Y" 12) (durLit "P12M" 12) = false ∧
+    litEqV (durLit "P12M" 12) (durLit "P1Y" 12) = some true := by decide
+
 /-! ## `sorted()` on a family -/
 
 /-- sorting the members of a family with `<`: the result is an increasing rearrangement; two input orders give
@@ -265,7 +323,8 @@ theorem mixed_sort_unique : Statement_mixed_sort_unique := by
 /-! ## regenerated tables -/
 
 /-- `datetime` has a total-order caster that keys a value by (aware?, value) — probed on the live table -/
-theorem table_casters : Tables.castsDatetime = true ∧ Tables.casterAwareFlag = (false, true) := by decide
+theorem table_casters : Tables.castsDatetime = true ∧ Tables.casterAwareFlag = (false, true) ∧
+    Tables.castsTime = true ∧ Tables.casterAwareFlagTime = (false, true) := by decide
 
 /-! ## non-vacuity -/
 
@@ -294,6 +353,19 @@ example : LitsIn Fam.numeric [.lit exDbl, .node .uri ['b'], .lit exInt, .node .b
   rcases h with h | h <;> subst h <;> decide
 example : sortVT [.lit exDbl, .node .uri ['b'], .lit exInt, .node .bnode ['z'], .node .uri ['a']] =
     [.node .bnode ['z'], .node .uri ['a'], .node .uri ['b'], .lit exInt, .lit exDbl] := by decide +kernel
+def exT1 : VLit := ⟨"21:32:52".toList, some (xsd "time"), none, some (.tim 77572000000 none), false⟩
+def exT2 : VLit := ⟨"21:32:52Z".toList, some (xsd "time"), none, some (.tim 77572000000 (some 0)), false⟩
+def exT3 : VLit := ⟨"23:32:52+02:00".toList, some (xsd "time"), none, some (.tim 84772000000 (some 7200000000)), false⟩
+example : (Fam.valued (xsd "time") none 5).mem exT1 = true ∧ (Fam.valued (xsd "time") none 5).mem exT3 = true := by decide
+example : pyLt exT1 exT2 = true ∧ litEqV exT2 exT3 = some true ∧ pyLt exT2 exT3 = false := by decide
+def exB1 : VLit := ⟨"0FB7".toList, some (xsd "hexBinary"), none, some (.bytes [Char.ofNat 15, Char.ofNat 183]), false⟩
+def exB2 : VLit := ⟨"0fb8".toList, some (xsd "hexBinary"), none, some (.bytes [Char.ofNat 15, Char.ofNat 184]), false⟩
+example : (Fam.valued (xsd "hexBinary") none 4).mem exB1 = true ∧ pyLt exB1 exB2 = true := by decide
+def exD1 : VLit := ⟨"P1D".toList, some (xsd "dayTimeDuration"), none, some (.dur 0 86400000000 false), false⟩
+def exD2 : VLit := ⟨"PT24H".toList, some (xsd "dayTimeDuration"), none, some (.dur 0 86400000000 false), false⟩
+def exD3 : VLit := ⟨"PT25H".toList, some (xsd "dayTimeDuration"), none, some (.dur 0 90000000000 false), false⟩
+example : (Fam.valued (xsd "dayTimeDuration") none 6).mem exD1 = true ∧ litEqV exD1 exD2 = some true ∧ pyLt exD2 exD3 = true ∧
+    (Fam.valued (xsd "yearMonthDuration") none 6).mem (durLit "P1Y" 12) = false := by decide
 /-- `<=` raises for two ill-typed forms ordered the other way (what `lit_ops_consistent` says) -/
 example : pyLe k4f ⟨['5'], some (xsd "integer"), none, none, true⟩ = none := by decide
 
